@@ -29,8 +29,11 @@ def run_bin(path, lines):
     if p.returncode != 0: raise RuntimeError(path + " failed: " + p.stderr[-2000:])
     return p.stdout.split("\n")[:-1]
 
+ABORTED = {"calls": ["abort: the harness process died on this request (stack overflow)"], "render": None, "parses": False, "code": "",
+           "dump": None, "types": [], "uses": {}, "pre_cycles": None, "messages": ["process died"], "render_message": None, "aborted": True}
 def tvh_ir(reqs):
-    return [json.loads(l) for l in run_bin(vlib.tvh("ir"), [json.dumps(r) for r in reqs])]
+    """answers of the real typify (tvh_ir); a request that kills the process gets the ABORTED answer"""
+    return [dict(ABORTED) if l is None else json.loads(l) for l in vlib.run_isolating(vlib.tvh("ir"), [json.dumps(r) for r in reqs])]
 
 def real_summaries(codes):
     return [json.loads(l) for l in run_bin(vlib.tvh("m2"), [json.dumps(c) for c in codes])]
